@@ -57,7 +57,7 @@ type libPoint[F libFE] interface {
 type hPoint struct {
 	p           pt
 	enc         []byte
-	torsionFree bool // the library's own answer (secondary)
+	torsionFree func() bool // the library's own answer (secondary; costs a library scalar multiplication)
 }
 
 func (h hPoint) key() string {
@@ -80,7 +80,7 @@ func conv[P libPoint[F], F libFE](p P, err error) (hPoint, error) {
 	if err != nil {
 		return hPoint{}, err
 	}
-	out := hPoint{enc: p.Bytes(), torsionFree: p.IsTorsionFree()}
+	out := hPoint{enc: p.Bytes(), torsionFree: p.IsTorsionFree}
 	if p.IsOpIdentity() {
 		out.p.inf = true
 		return out, nil
@@ -102,6 +102,10 @@ type h2cCurve struct {
 	suite   string // the suite string the library names for this curve
 	group   groupRef
 	edw     bool // reference neutral element is (0,1) rather than the point at infinity
+	// cofactor 1: the curve group itself has prime order (SEC 2 / FIPS 186-4 / pasta specification), so a point that
+	// satisfies the curve equation is in the prime-order subgroup; the order-annihilation test adds nothing and is run
+	// for these curves in the thorough tier and on the known-answer points only.
+	cofactorOne bool
 	order   *big.Int
 	fieldP  *big.Int
 	m, l    int // extension degree and hash_to_field L of the suite
@@ -123,21 +127,21 @@ func newBlake2b() hash.Hash {
 
 var h2cCurves = []*h2cCurve{
 	{
-		name: "k256", suite: k256.Hash2CurveSuite, group: refK256(), order: nK256, fieldP: pK256, m: 1, l: 48, newH: sha256.New,
+		name: "k256", cofactorOne: true, suite: k256.Hash2CurveSuite, group: refK256(), order: nK256, fieldP: pK256, m: 1, l: 48, newH: sha256.New,
 		hash: func(m []byte) (hPoint, error) { return conv[*k256.Point, *k256.BaseFieldElement](k256.NewCurve().Hash(m)) },
 		hashDst: func(d string, m []byte) (hPoint, error) {
 			return conv[*k256.Point, *k256.BaseFieldElement](k256.NewCurve().HashWithDst(d, m))
 		},
 	},
 	{
-		name: "p256", suite: p256.Hash2CurveSuite, group: refP256(), order: nP256, fieldP: pP256, m: 1, l: 48, newH: sha256.New,
+		name: "p256", cofactorOne: true, suite: p256.Hash2CurveSuite, group: refP256(), order: nP256, fieldP: pP256, m: 1, l: 48, newH: sha256.New,
 		hash: func(m []byte) (hPoint, error) { return conv[*p256.Point, *p256.BaseFieldElement](p256.NewCurve().Hash(m)) },
 		hashDst: func(d string, m []byte) (hPoint, error) {
 			return conv[*p256.Point, *p256.BaseFieldElement](p256.NewCurve().HashWithDst(d, m))
 		},
 	},
 	{
-		name: "pallas", suite: pasta.PallasHash2CurveSuite, group: refPallas(), order: qPallas, fieldP: pPallas, m: 1, l: 64, newH: newBlake2b,
+		name: "pallas", cofactorOne: true, suite: pasta.PallasHash2CurveSuite, group: refPallas(), order: qPallas, fieldP: pPallas, m: 1, l: 64, newH: newBlake2b,
 		hash: func(m []byte) (hPoint, error) {
 			return conv[*pasta.PallasPoint, *pasta.FpFieldElement](pasta.NewPallasCurve().Hash(m))
 		},
@@ -146,7 +150,7 @@ var h2cCurves = []*h2cCurve{
 		},
 	},
 	{
-		name: "vesta", suite: pasta.VestaHash2CurveSuite, group: refVesta(), order: pPallas, fieldP: qPallas, m: 1, l: 64, newH: newBlake2b,
+		name: "vesta", cofactorOne: true, suite: pasta.VestaHash2CurveSuite, group: refVesta(), order: pPallas, fieldP: qPallas, m: 1, l: 64, newH: newBlake2b,
 		hash: func(m []byte) (hPoint, error) {
 			return conv[*pasta.VestaPoint, *pasta.FqFieldElement](pasta.NewVestaCurve().Hash(m))
 		},
@@ -350,10 +354,10 @@ func gridEval(x *engine.X, ci, mi int) {
 			x.Failf("h2c/"+c.name+"/on-curve", "%s: output %s does not satisfy the curve equation", who, p.key())
 			continue
 		}
-		if !c.group.isNeutral(scalarMul(c.group, c.order, refForm(c, p.p))) {
+		if (!c.cofactorOne || engine.Thorough()) && !c.group.isNeutral(scalarMul(c.group, c.order, refForm(c, p.p))) {
 			x.Failf("h2c/"+c.name+"/subgroup", "%s: output %s is not annihilated by the prime group order", who, p.key())
 		}
-		if !p.torsionFree {
+		if !p.torsionFree() {
 			x.Failf("h2c/"+c.name+"/subgroup-lib", "%s: the library's IsTorsionFree() is false for its own hash output %s", who, p.key())
 		}
 		// oversize DST: equal to hashing with the RFC 9380 §5.3.3 replacement DST
